@@ -41,6 +41,8 @@ import (
 //     `kind:subject`; on success the binding (production -> method, rule -> type) is added;
 //   * case line `dec.assign …` = matrices + grammar (as lr1.Grammar, helper rules included) +
 //     methods in ParserType.Method(i) order; the Lean model (lean/Lox/Dec/Assign.lean) answers it;
+//     a second line `dec.assignwf …` asks the driver to decide the hypotheses of the theorems
+//     (WF: helper-rule shapes; IdentEquiv: Identical is an equivalence) on the same case;
 //   * oracle column (independent of the Lean model): the property statement evaluated with go/types
 //     on the SUGAR grammar (x? has the type of x; x*, x+, @list have type []x): verdict expected vs
 //     lox's; after exit 0 the package must compile (go build) and, when run on sentences, every
@@ -187,6 +189,7 @@ func (n *N2) Error() string { return strconv.Itoa(n.ID) }
 
 type N3 struct{ ID int }
 type L1 []int32
+type Toks []Token
 type AL = []int32
 type M1 map[string]int
 type F1 func() int
@@ -329,7 +332,7 @@ func assignPreludeFor(pkg string, tv atokVariant, mixin bool) string {
 			fmt.Fprintf(&cases, "\tcase %s:\n\t\treturn sl(x)\n", e)
 		}
 	}
-	cases.WriteString("\tcase []Token:\n\t\treturn sl(x)\n\tcase []Error:\n\t\treturn sl(x)\n")
+	cases.WriteString("\tcase []Token:\n\t\treturn sl(x)\n\tcase []Error:\n\t\treturn sl(x)\n\tcase Toks:\n\t\treturn sl([]Token(x))\n")
 	src := assignPrelude
 	src = strings.ReplaceAll(src, "PKG", pkg)
 	src = strings.ReplaceAll(src, "TOKENDECL", tv.Decl)
@@ -396,6 +399,7 @@ type apkg struct {
 	Mixin   bool
 	Faults  []string
 	Files   map[string]string
+	Extra   [][]int // additional inputs (indices into Spec.Tokens, -1 = the lexer's ERROR token)
 
 	// results
 	dir      string
@@ -647,6 +651,14 @@ func genAssignPkg(r *Rng, name string, s *GSpec) *apkg {
 		j := r.Intn(i + 1)
 		a.Methods[i], a.Methods[j] = a.Methods[j], a.Methods[i]
 	}
+	a.buildFiles()
+	return a
+}
+
+
+// buildFiles renders the package: p.go (fixed prelude), m.go / a.go (the action methods), g.lox.
+func (a *apkg) buildFiles() {
+	name, s := a.Name, a.Spec
 	var f0, f1 strings.Builder
 	hdr := "package " + name + "\n\nimport (\n\t\"fmt\"\n\t\"strings\"\n\t\"time\"\n\n\thelper \"verifgen/helper\"\n)\n\nvar (\n\t_ fmt.Stringer\n\t_ strings.Builder\n\t_ time.Duration\n\t_ helper.Item\n)\n\n"
 	f0.WriteString(hdr)
@@ -678,7 +690,94 @@ func genAssignPkg(r *Rng, name string, s *GSpec) *apkg {
 	if strings.Contains(f1.String(), "func (") {
 		a.Files["a.go"] = f1.String()
 	}
-	return a
+}
+
+// directedAssignPkgs are hand-written layouts that every run starts with: the witnesses of the
+// repaired defects D4 (assignable but not identical parameter types), D15 (helper rules over
+// @error), D16 (variadic action method) and a few corner cases of the type catalogue.
+func directedAssignPkgs() []*apkg {
+	tok := func(i int) *GTerm { return &GTerm{Kind: KTok, Tok: i} }
+	rule := func(i int) *GTerm { return &GTerm{Kind: KRule, Rule: i} }
+	wrap := func(k TK, t *GTerm) *GTerm { return &GTerm{Kind: k, Child: t} }
+	list := func(k TK, t, sep *GTerm) *GTerm { return &GTerm{Kind: k, Child: t, Sep: sep} }
+	errT := &GTerm{Kind: KErr}
+	mk := func(name, note string, tokv int, s *GSpec, ruleTy []string, ms []*amethod, extra [][]int) *apkg {
+		a := &apkg{Name: name, Spec: s, Lox: s.Lox(), Tok: tokv, RuleTy: ruleTy, Methods: ms, Faults: []string{"directed:" + note}, Extra: extra}
+		for _, m := range ms {
+			if m.Recv == "" {
+				m.Recv = "p *P"
+			}
+		}
+		a.buildFiles()
+		return a
+	}
+	var out []*apkg
+	// D4: s = A* n ; n = B.  on_s(a Toks, n []int32) with `type Toks []Token`, rule n of type L1 (named []int32)
+	out = append(out, mk("d0000", "D4-assignable-not-identical", 0,
+		&GSpec{Tokens: []string{"TA", "TB"}, Rules: []*GRule{
+			{Name: "s", Prods: []*GProd{{Terms: []*GTerm{wrap(KStar, tok(0)), rule(1)}}}},
+			{Name: "n", Prods: []*GProd{{Terms: []*GTerm{tok(1)}}}}}},
+		[]string{"N1", "L1"},
+		[]*amethod{
+			{Name: "on_s", Params: []string{"Toks", "[]int32"}, Results: []string{"N1"}, MkExpr: "N1{ID: id}"},
+			{Name: "on_n", Params: []string{"Token"}, Results: []string{"L1"}, MkExpr: "L1{int32(id)}"}},
+		[][]int{{0, 0, 1}, {1}}))
+	// D4 with every other assignable-not-identical pair of the catalogue in one production
+	out = append(out, mk("d0001", "D4-many-pairs", 2,
+		&GSpec{Tokens: []string{"TA", "TB"}, WithBounds: true, Rules: []*GRule{
+			{Name: "s", Prods: []*GProd{{Terms: []*GTerm{rule(1), rule(2), rule(3), rule(4), rule(5), wrap(KOpt, rule(6)), wrap(KPlus, rule(1))}}}},
+			{Name: "a", Prods: []*GProd{{Terms: []*GTerm{tok(0)}}}},
+			{Name: "b", Prods: []*GProd{{Terms: []*GTerm{tok(0)}}}},
+			{Name: "c", Prods: []*GProd{{Terms: []*GTerm{tok(0)}}}},
+			{Name: "d", Prods: []*GProd{{Terms: []*GTerm{tok(0)}}}},
+			{Name: "e", Prods: []*GProd{{Terms: []*GTerm{tok(0)}}}},
+			{Name: "f", Prods: []*GProd{{Terms: []*GTerm{tok(1)}}}}}},
+		[]string{"int", "M1", "func() int", "*N1", "chan int", "struct{ ID int }", "helper.List"},
+		[]*amethod{
+			{Name: "on_s", Params: []string{"map[string]int", "helper.Fn", "P1", "<-chan int", "N3", "[]int32", "any"}, Results: []string{"int"}, MkExpr: "id"},
+			{Name: "on_a", Params: []string{"Token"}, Results: []string{"M1"}, MkExpr: "M1{\"id\": id}"},
+			{Name: "on_b", Params: []string{"Token"}, Results: []string{"func() int"}, MkExpr: "func() int { return id }"},
+			{Name: "on_c", Params: []string{"Token"}, Results: []string{"*N1"}, MkExpr: "&N1{ID: id}"},
+			{Name: "on_d", Params: []string{"Token"}, Results: []string{"chan int"}, MkExpr: "make(chan int, id)"},
+			{Name: "on_e", Params: []string{"Token"}, Results: []string{"struct{ ID int }"}, MkExpr: "struct{ ID int }{ID: id}"},
+			{Name: "on_f", Params: []string{"Token"}, Results: []string{"helper.List"}, MkExpr: "helper.List{int32(id)}"}},
+		[][]int{{0, 0, 0, 0, 0, 1, 0}, {0, 0, 0, 0, 0, 0, 0, 0}}))
+	// D16: variadic action method: s = A* n ; on_s(a []Token, n ...int32) must be refused
+	out = append(out, mk("d0002", "D16-variadic", 0,
+		&GSpec{Tokens: []string{"TA", "TB"}, Rules: []*GRule{
+			{Name: "s", Prods: []*GProd{{Terms: []*GTerm{wrap(KStar, tok(0)), rule(1)}}}},
+			{Name: "n", Prods: []*GProd{{Terms: []*GTerm{tok(1)}}}}}},
+		[]string{"N1", "[]int32"},
+		[]*amethod{
+			{Name: "on_s", Params: []string{"[]Token", "int32"}, Variadic: true, Results: []string{"N1"}, MkExpr: "N1{ID: id}"},
+			{Name: "on_n", Params: []string{"Token"}, Results: []string{"[]int32"}, MkExpr: "[]int32{int32(id)}"}},
+		nil))
+	// D15: helper rules over @error are typed Error / []Error: s = A @error? B | C @error* B | B @error+ A
+	// (@list(@error, …) is refused by the front end)
+	out = append(out, mk("d0003", "D15-error-helpers", 0,
+		&GSpec{Tokens: []string{"TA", "TB", "TC"}, Rules: []*GRule{
+			{Name: "s", Prods: []*GProd{
+				{Terms: []*GTerm{tok(0), wrap(KOpt, errT), tok(1)}},
+				{Terms: []*GTerm{tok(2), wrap(KStar, errT), tok(1)}},
+				{Terms: []*GTerm{tok(1), wrap(KPlus, errT), tok(0)}}}}}},
+		[]string{"N1"},
+		[]*amethod{
+			{Name: "on_s__opt", Params: []string{"Token", "Error", "Token"}, Results: []string{"N1"}, MkExpr: "N1{ID: id}"},
+			{Name: "on_s__many", Params: []string{"Token", "[]Error", "Token"}, Results: []string{"N1"}, MkExpr: "N1{ID: id}"}},
+		[][]int{{0, 1}, {0, 2, 1}, {0, -1, 1}, {2, 0, 1}, {2, 1}, {1, 0, 0}, {1, -1, 2, 0, 0}, {1, 1, 0}}))
+	// interface-typed rule whose values have different dynamic types, shared method with `any`
+	out = append(out, mk("d0004", "interfaces-shared", 1,
+		&GSpec{Tokens: []string{"TA", "TB", "TC", "TD"}, Rules: []*GRule{
+			{Name: "s", Prods: []*GProd{{Terms: []*GTerm{wrap(KPlus, rule(1))}}, {Terms: []*GTerm{tok(1), wrap(KOpt, rule(1)), tok(3), list(KListOpt, rule(1), tok(1))}}}},
+			{Name: "v", Prods: []*GProd{{Terms: []*GTerm{tok(0)}}, {Terms: []*GTerm{tok(2), tok(0)}}}}}},
+		[]string{"any", "I1"},
+		[]*amethod{
+			{Name: "on_s", Params: []string{"[]I1"}, Results: []string{"any"}, MkExpr: "K1(id)"},
+			{Name: "on_s__b", Params: []string{"any", "helper.Tagger", "Token", "[]I1"}, Results: []string{"any"}, MkExpr: "&N2{ID: id}"},
+			{Name: "on_v", Params: []string{"Token"}, Results: []string{"I1"}, MkExpr: "N1{ID: id}"},
+			{Name: "on_v__two", Params: []string{"Token", "any"}, Results: []string{"I1"}, MkExpr: "&N2{ID: id}"}},
+		[][]int{{0, 0, 2, 0}, {1, 3}, {1, 0, 3}, {1, 2, 0, 3, 0, 1, 2, 0}}))
+	return out
 }
 
 // ---------------------------------------------------------------------------------------------
@@ -1161,7 +1260,7 @@ func (a *apkg) checkRun(w []int, out string, clean bool) string {
 				if strings.HasPrefix(part, "E") {
 					sawErr = true
 					x, _ := strconv.Atoi(part[1:])
-					if x == 0 {
+					if x == 0 && !(!isList && k < len(opt) && opt[k]) { // (an absent @error? is a zero Error)
 						return fmt.Sprintf("parameter %d of %s received a zero Error (%s)", k, m, e)
 					}
 					continue
@@ -1226,8 +1325,9 @@ func init() {
 		if c.Tier == "thorough" {
 			opts = GenOpts{MaxTokens: 5, MaxRules: 6, MaxProds: 4, MaxTerms: 4, Sugar: true, Errors: true}
 		}
-		var pkgs []*apkg
-		for tries := 0; len(pkgs) < c.N && tries < c.N*30; tries++ {
+		pkgs := directedAssignPkgs()
+		nd := len(pkgs)
+		for tries := 0; len(pkgs) < c.N+nd && tries < c.N*30; tries++ {
 			s := GenSpec(c.Rng, opts)
 			stripStarF(s)
 			fr := RunFront(s.Lox())
@@ -1235,7 +1335,7 @@ func init() {
 				c.Count("grammar-rejected-or-conflicts")
 				continue
 			}
-			pkgs = append(pkgs, genAssignPkg(c.Rng, fmt.Sprintf("g%04d", len(pkgs)), s))
+			pkgs = append(pkgs, genAssignPkg(c.Rng, fmt.Sprintf("g%04d", len(pkgs)-nd), s))
 		}
 		lap("packages generated")
 		// run lox on every package, 16 at a time
@@ -1438,6 +1538,9 @@ func init() {
 							}
 						}
 						add(nil, false)
+						for _, w := range a.Extra {
+							add(w, true)
+						}
 					}
 					outs := RunMux(bin, reqs)
 					lap("runs done")
@@ -1464,6 +1567,8 @@ func init() {
 			head := fmt.Sprintf("# pkg %s faults=%v expect=%v", a.Name, a.Faults, a.expectOK)
 			c.Emit(head, head)
 			c.EmitO(a.caseLine, a.implLine, strings.Join(a.oracle, " ;; "))
+			// the hypotheses (WF, IdentEquiv) under which the theorems of Lox.Props.C06 speak about this case
+			c.Emit("dec.assignwf "+strings.TrimPrefix(a.caseLine, "dec.assign "), "wf=1 ident=1")
 			c.Distinct(a.caseLine)
 			if len(a.oracle) > 0 {
 				c.Count("oracle-hits")
